@@ -66,6 +66,7 @@ struct WorkerResult {
 
 /// Run `count` runs of (engine profile) starting at `first`, spread over worker processes.
 fn run_stage(
+    engine: &str,
     profile: &str,
     tier: &str,
     top: u64,
@@ -94,7 +95,7 @@ fn run_stage(
         .map(|w| Slot {
             next: first + w * per,
             end: (first + (w + 1) * per).min(first + count),
-            out: format!("{scratch}/{profile}-{first}-w{w}.jsonl"),
+            out: format!("{scratch}/{engine}-{profile}-{first}-w{w}.jsonl"),
             child: None,
             respawns: 0,
         })
@@ -105,6 +106,7 @@ fn run_stage(
         let child = Command::new(&exe)
             .args([
                 "worker",
+                engine,
                 profile,
                 tier,
                 &top.to_string(),
@@ -442,8 +444,8 @@ pub fn check(property: &str, tier: &str, top: u64) -> i32 {
     let cap = Duration::from_secs(if tier == "quick" { plan.quick_cap_secs } else { plan.thorough_cap_secs });
     let scale: f64 = std::env::var("VERIF_SCALE").ok().and_then(|s| s.parse().ok()).unwrap_or(1.0);
 
-    let mut all: Vec<(String, Outcome)> = Vec::new();
-    let mut crashes: Vec<(String, u64, String)> = Vec::new();
+    let mut all: Vec<((&'static str, String), Outcome)> = Vec::new();
+    let mut crashes: Vec<((&'static str, String), u64, String)> = Vec::new();
     let mut stage_info = Vec::new();
     let n_stages = plan.stages.len() as u32;
     for (si, stage) in plan.stages.iter().enumerate() {
@@ -453,16 +455,16 @@ pub fn check(property: &str, tier: &str, top: u64) -> i32 {
         let left = cap.saturating_sub(started.elapsed());
         let share = left / (n_stages - si as u32);
         let t0 = Instant::now();
-        let r = run_stage(&stage.profile, tier, top, 0, runs, Instant::now() + share, &scratch, &replay_dir);
+        let r = run_stage(stage.engine, &stage.profile, tier, top, 0, runs, Instant::now() + share, &scratch, &replay_dir);
         stage_info.push(json!({
             "engine": stage.engine, "profile": stage.profile, "planned_runs": runs,
             "completed_runs": r.outcomes.len(), "wall_s": t0.elapsed().as_secs_f64()
         }));
         for o in r.outcomes {
-            all.push((stage.profile.clone(), o));
+            all.push(((stage.engine, stage.profile.clone()), o));
         }
         for (run, why) in r.crashes {
-            crashes.push((stage.profile.clone(), run, why));
+            crashes.push(((stage.engine, stage.profile.clone()), run, why));
         }
     }
 
@@ -530,9 +532,9 @@ pub fn check(property: &str, tier: &str, top: u64) -> i32 {
         }
     }
     // worker crashes / hangs: rebuild the replay file from the seed and confirm
-    for (profile, run, why) in &crashes {
-        let engine = engines::engine_for(profile);
-        let seed = tape::run_seed(top, profile, *run);
+    for ((engine_name, profile), run, why) in &crashes {
+        let engine = engines::engine_by_name(engine_name);
+        let seed = tape::run_seed(top, &format!("{engine_name}:{profile}"), *run);
         let sc = engine.generate(profile, seed, tier);
         let path = format!("{replay_dir}/{property}-crash-{seed:016x}.json");
         let file = ReplayFile {
@@ -618,8 +620,17 @@ pub fn check(property: &str, tier: &str, top: u64) -> i32 {
     let wall = started.elapsed().as_secs_f64();
     // samples: first few runs re-generated (scenario summary + outcome)
     let mut samples = Vec::new();
-    for (profile, o) in all.iter().filter(|(_, o)| o.nontrivial).take(3) {
-        let engine = engines::engine_for(profile);
+    // one or two samples per stage
+    let mut sample_runs: Vec<&((&'static str, String), Outcome)> = Vec::new();
+    for stage in &plan.stages {
+        sample_runs.extend(
+            all.iter()
+                .filter(|((e, p), o)| *e == stage.engine && *p == stage.profile && o.nontrivial)
+                .take(if plan.stages.len() > 1 { 1 } else { 3 }),
+        );
+    }
+    for ((engine_name, profile), o) in sample_runs {
+        let engine = engines::engine_by_name(engine_name);
         let sc = engine.generate(profile, o.seed, tier);
         let ops_preview: Vec<String> = sc
             .clients
